@@ -144,17 +144,22 @@ def push_value(node: AbbreviationNode, state: IndentWalkState):
             if l > max_length:
                 max_length = l
 
-        # Output each line, padded to max length
+        # Output each line, padded to max length. All lines belong to the same
+        # value: its fields share a single numbering scope
         out.level += 1
+        field = next_field = state.field
         for i, line in enumerate(lines):
             out.push_newline(True)
             if before:
                 out.push(before)
+            state.field = field
             push_tokens(line, state)
+            next_field = max(next_field, state.field)
             if after:
                 out.push(' ' * (max_length - line_lengths[i]))
                 out.push(after)
 
+        state.field = next_field
         out.level -= 1
 
 def is_primary_attribute(attr: AbbreviationAttribute):
